@@ -60,12 +60,13 @@ def make_arrays(problem, seed):
         x, y, z = (g[i] + _jitter(rng, n ** 3, 0.12 * dx) for i in range(3))
         h = np.ones_like(x) * 1.2 * dx
         rho0 = 1000.0
-        m = np.ones_like(x) * dx ** 3 * rho0
+        m = dx ** 3 * rho0 * (1.0 + _jitter(rng, n ** 3, 0.01))
         u = 0.4 * np.sin(3.0 * y) + _jitter(rng, n ** 3, 0.02)
         v = -0.3 * np.cos(2.0 * x)
         w = 0.2 * np.sin(4.0 * x * y)
         fl = get_particle_array(name='fluid', x=x, y=y, z=z, h=h, m=m,
-                                rho=np.ones_like(x) * rho0, u=u, v=v, w=w)
+                                rho=rho0 * (1.0 + _jitter(rng, n ** 3, 0.01)),
+                                u=u, v=v, w=w)
         arrs = [fl]
     elif problem in ('wall', 'tie'):
         # 2D block of fluid in an open tank made of a second (solid) array
@@ -76,11 +77,12 @@ def make_arrays(problem, seed):
         y = g[1] + dx + _jitter(rng, nf * nf, 0.1 * dx)
         rho0 = 1000.0
         h = np.ones_like(x) * 1.3 * dx
-        m = np.ones_like(x) * dx * dx * rho0
+        m = dx * dx * rho0 * (1.0 + _jitter(rng, nf * nf, 0.01))
         u = 0.5 * np.sin(5.0 * y) + _jitter(rng, nf * nf, 0.02)
         v = -0.5 * np.cos(4.0 * x)
         fl = get_particle_array(name='fluid', x=x, y=y, h=h, m=m,
-                                rho=np.ones_like(x) * rho0, u=u, v=v)
+                                rho=rho0 * (1.0 + _jitter(rng, nf * nf, 0.01)),
+                                u=u, v=v)
         # tank: 3 layers, bottom and two side walls; wider than the fluid so
         # that parts of the wall have no fluid nearby (sparse second array)
         nl = 3
@@ -98,8 +100,8 @@ def make_arrays(problem, seed):
         xs, ys = pts[:, 0].copy(), pts[:, 1].copy()
         so = get_particle_array(name='solid', x=xs, y=ys,
                                 h=np.ones_like(xs) * 1.3 * dx,
-                                m=np.ones_like(xs) * dx * dx * rho0,
-                                rho=np.ones_like(xs) * rho0)
+                                m=dx * dx * rho0 * (1.0 + _jitter(rng, len(xs), 0.01)),
+                                rho=rho0 * (1.0 + _jitter(rng, len(xs), 0.01)))
         arrs = [fl, so]
     elif problem == 'periodic':
         # 2D doubly periodic box, Taylor-Green like velocity field
@@ -114,8 +116,9 @@ def make_arrays(problem, seed):
         v = U * np.sin(2 * np.pi * x) * np.cos(2 * np.pi * y)
         fl = get_particle_array(name='fluid', x=x, y=y,
                                 h=np.ones_like(x) * 1.0 * dx,
-                                m=np.ones_like(x) * dx * dx * rho0,
-                                rho=np.ones_like(x) * rho0, u=u, v=v)
+                                m=dx * dx * rho0 * (1.0 + _jitter(rng, n * n, 0.01)),
+                                rho=rho0 * (1.0 + _jitter(rng, n * n, 0.01)),
+                                u=u, v=v)
         arrs = [fl]
     else:
         raise SystemExit('unknown problem %r' % problem)
